@@ -17,13 +17,14 @@ Ltac unf H := cbv [auth_step h_service h_request h_publickey h_gss_mic_request h
                    raise_out then_do set_active set_authed set_user set_fails set_gss set_expected
                    a_active a_authed a_user a_fails a_gss a_expected] in H.
 
-Definition approves (sig_ok : list Z -> list Z -> list Z -> bool) (sid : list Z)
+Definition approves (sig_ok : list Z -> list Z -> list Z -> vres) (sid : list Z)
            (m : amsg) (e : env) (user : option (list Z)) (outs : list out) : Prop :=
   e_res e = RSuccess /\
   exists k, In (OCb k user RSuccess) outs /\ cb_for m k = true /\
     (k = CbPublickey -> exists u s alg kb sg blob,
         m = Msg50 u s (BPublickey true alg kb sg) /\ e_keyok e = true /\
-        session_blob sid u s alg (e_bits e) = Ok blob /\ sig_ok (e_bits e) blob sg = true).
+        session_blob sid u s alg (e_bits e) = Ok blob /\ sig_ok (e_bits e) blob sg = VTrue /\
+        beq (sig_alg sg) (strip_cert alg) = true).
 
 Lemma in_cb_pk : forall k u r l, In (OCb k u r) l -> In (OCb k u r) l. Proof. auto. Qed.
 
@@ -117,16 +118,16 @@ Proof. intros u s sa alg kb sg k H. destruct k; simpl in H; congruence. Qed.
 
 (* a signature made for other field values never authenticates *)
 Section Replay.
-Variable sig_ok : list Z -> list Z -> list Z -> bool.
+Variable sig_ok : list Z -> list Z -> list Z -> vres.
 (* symbolic signature premise: under one key a signature verifies for at most one message *)
-Hypothesis sig_binds : forall k b1 b2 sg, sig_ok k b1 sg = true -> sig_ok k b2 sg = true -> b1 = b2.
+Hypothesis sig_binds : forall k b1 b2 sg, sig_ok k b1 sg = VTrue -> sig_ok k b2 sg = VTrue -> b1 = b2.
 
 Lemma replay_never_auths :
   forall sid1 u1 s1 a1 sid2 u2 s2 a2 bits kb sg b1 st e st' outs,
     bytes_ok sid1 = true -> bytes_ok u1 = true -> bytes_ok s1 = true -> bytes_ok a1 = true ->
     bytes_ok sid2 = true -> bytes_ok u2 = true -> bytes_ok s2 = true -> bytes_ok a2 = true ->
     bytes_ok bits = true ->
-    session_blob sid1 u1 s1 a1 bits = Ok b1 -> sig_ok bits b1 sg = true ->
+    session_blob sid1 u1 s1 a1 bits = Ok b1 -> sig_ok bits b1 sg = VTrue ->
     (sid1, u1, s1, a1) <> (sid2, u2, s2, a2) ->
     e_bits e = bits -> a_authed st = false ->
     auth_step sig_ok sid2 st (Msg50 u2 s2 (BPublickey true a2 kb sg)) e = (st', outs) ->
@@ -136,7 +137,7 @@ Proof.
          W1 W2 W3 W4 W5 W6 W7 W8 W9 Hb Hs Hne Hbits Hau H.
   assert (C : In OSuccess outs \/ (a_authed st = false /\ a_authed st' = true) -> False).
   { intros Hc. destruct (success_needs_approval _ _ _ _ _ _ _ H Hc) as [[_ [k [_ [Hk Hpk]]]] _].
-    apply cb_for_pk in Hk. destruct (Hpk Hk) as [u [s [alg [kb' [sg' [blob [Em [_ [Eb Ev]]]]]]]]].
+    apply cb_for_pk in Hk. destruct (Hpk Hk) as [u [s [alg [kb' [sg' [blob [Em [_ [Eb [Ev _]]]]]]]]]].
     inversion Em; subst. 
     assert (b1 = blob) by (eapply sig_binds; eassumption). subst blob.
     destruct (blob_injective _ _ _ _ _ _ _ _ _ _ _ W1 W2 W3 W4 W9 W5 W6 W7 W8 W9 Hb Eb)
